@@ -12,8 +12,12 @@ LAYOUT   every operand and every `out=` buffer may be a non-contiguous VIEW with
          caller's buffer must hold the result afterwards, every other cell of its workspace and all operands must be unchanged.
 HISTORY  `prev`: the same tensor OBJECTS are first used for a call with other data, then overwritten in place and used for
          the reported call; the first result is scribbled over before the reported result is read.
-RANGE    tolerance tier with saturation / tail arguments of the sigmoid (|Re z| up to 700), moduli 1e-140..1e140, exact zeros;
+RANGE    tolerance tier with saturation / tail arguments of the sigmoid (Re z in [-800, 1000]), moduli 1e-140..1e140, exact zeros;
          comparison per ENTRY relative to the entry's own magnitude (see `entry_scale`), non-finite entries by class.
+EXTREME  (audit item C15-1) moduli 1e+-(155..300) for modulus / inverse / division / norm and Re z in (709.78, 1000] for the
+         sigmoid: all operands finite, the true result finite and representable. Native complex128 arithmetic (np.abs = hypot,
+         Smith division) is exact to rounding there; code that forms |z|^2 or e^z explicitly returns inf / nan / 0. Expected value:
+         numpy complex128 on the decoded operands (math.hypot for the norm); signature `<fn>/extreme-range`.
 """
 import itertools
 import math
@@ -34,8 +38,9 @@ RULE = ("case = (function, operand shapes incl. the leading complex axis, operan
         "Tolerance tier: N(0,1)*scale entries. Malformed stream: non-broadcastable pairs, wrong ranks, contraction mismatches, bad equations, "
         "0-d / short leading axis. Orthogonal dimensions applied to every case: memory LAYOUT of every operand / out= buffer (permuted, padded, stepped, "
         "column, expanded views; storage offset; one shared storage), storage-sharing out= buffers (views of an operand, overlapping windows), call "
-        "HISTORY on the same objects (in-place re-parametrisation, earlier result scribbled), numeric RANGE (sigmoid tails |Re z|<=700, moduli "
-        "1e-140..1e140, exact zeros; per-entry relative comparison). non-trivial iff every complex operand has an entry with non-zero real AND imaginary part (so a sign or "
+        "HISTORY on the same objects (in-place re-parametrisation, earlier result scribbled), numeric RANGE (sigmoid Re z in [-800,1000], moduli "
+        "1e-140..1e140 and, for modulus / inverse / division / norm, 1e+-(155..300) with a representable result; exact zeros; per-entry relative "
+        "comparison). Einsum equations: explicit, implicit-output and ellipsis forms. non-trivial iff every complex operand has an entry with non-zero real AND imaginary part (so a sign or "
         "conjugation error changes the result) and the call is not a pure error case; distinct by hash of the whole case")
 THEOREMS = {
     "make_complex": "C15_make_complex, C15_make_complex_none, C15_rejects_make_complex",
@@ -48,20 +53,22 @@ THEOREMS = {
                    "C15_rejects_scalar_mult_shape, C15_broadcast_shape, C15_broadcast_index",
     "elementwise_mult": "C15_elementwise_mult, C15_scalar_mult, C15_rejects_scalar_mult_shape",
     "matmul": "C15_matmul_mat_mat, C15_matmul_mat_vec, C15_matmul_vec_mat, C15_matmul_vec_vec, C15_matmul_batched, "
-              "C15_matmul_batched_mat_vec, C15_matmul_is_matrix_product, C15_matmul_is_mulVec, C15_rejects_matmul",
+              "C15_matmul_batched_mat_vec, C15_matmul_vec_batched, C15_matmul_is_matrix_product, C15_matmul_is_mulVec, C15_rejects_matmul",
     "inner_prod": "C15_inner_prod_vec, C15_inner_prod_scalar, C15_inner_prod_is_star_dot, C15_rejects_inner_prod",
     "outer_prod": "C15_outer_prod, C15_outer_prod_is_vecMulVec, C15_rejects_outer_prod",
     "einsum": "C15_einsum, C15_einsum_complex, C15_einsum_real_part, C15_einsum_imag_part, C15_einsum_flags, C15_einsum_reads_valid, "
-              "C15_allIdx_spec, C15_sumLabels_spec, C15_einsum_ib_ibg, C15_rejects_einsum",
+              "C15_allIdx_spec, C15_sumLabels_spec, C15_einsum_ib_ibg, C15_rejects_einsum, C15_einsum_string, "
+              "C15_einsum_explicit_equation, C15_einsum_implicit_output, C15_einsum_ellipsis_spec, C15_einsum_ellipsis_alignment, "
+              "C15_einsum_implicit_matmul, C15_einsum_ellipsis_batched",
     "conjugate": "C15_conjugate_low_rank, C15_conjugate_transpose, C15_conjugate_is_conjTranspose",
     "conj": "C15_conj",
     "kronecker_prod": "C15_kronecker_prod, C15_kronecker_is_kronecker, C15_rejects_kronecker_prod",
     "norm_sqr": "C15_norm_sqr",
-    "elementwise_division": "C15_elementwise_division, C15_rejects_elementwise_division",
-    "absolute_value": "C15_absolute_value",
-    "sigmoid": "C15_sigmoid, C15_rejects_sigmoid",
-    "scalar_divide": "C15_scalar_divide",
-    "inverse": "C15_inverse",
+    "elementwise_division": "C15_elementwise_division, C15_rejects_elementwise_division, C15_scaled_operand_range",
+    "absolute_value": "C15_absolute_value, C15_hypot",
+    "sigmoid": "C15_sigmoid, C15_rejects_sigmoid, C15_sigmoid_exp_bounded",
+    "scalar_divide": "C15_scalar_divide, C15_scaled_operand_range",
+    "inverse": "C15_inverse, C15_scaled_operand_range",
     "norm": "C15_norm",
 }
 REQUIRED_THEOREMS = sorted({t.strip() for v in THEOREMS.values() for t in v.split(",")} | {"C15_dec_ops", "C15_dec_sums"})
@@ -343,17 +350,88 @@ def nontrivial_operand(t):
 
 # ------------------------------------------------------------------ einsum oracle (explicit loops)
 def parse_eq(eq):
+    """explicit equations without spaces / ellipsis only (used by the generators)"""
     lhs, out = eq.split("->")
     a, b = lhs.split(",")
     return a, b, out
 
 
-def einsum_loops(eq, A, B):
-    """independent complex Einstein summation with broadcasting of size-1 axes; returns None when the equation /
-    shapes are invalid (torch raises RuntimeError)"""
-    a, b, out = parse_eq(eq)
-    if len(a) != A.ndim or len(b) != B.ndim:
+ELL = "..."
+
+
+def tokenize(sub):
+    """subscripts of one operand as a list of labels (letters) and ELL; None when torch rejects the string itself
+    (a '.' that is not part of '...', a character that is not a letter)"""
+    sub = sub.replace(" ", "")
+    toks, i = [], 0
+    while i < len(sub):
+        if sub[i] == ".":
+            if sub[i:i + 3] != "...":
+                return None
+            toks.append(ELL)
+            i += 3
+        elif sub[i].isascii() and sub[i].isalpha():
+            toks.append(sub[i])
+            i += 1
+        else:
+            return None
+    return toks
+
+
+def parse_eq_full(eq):
+    """(a, b, out | None) as token lists for any two-operand equation string (implicit output: no '->'), None if malformed"""
+    parts = eq.split("->")
+    if len(parts) > 2:
         return None
+    ops = parts[0].split(",")
+    if len(ops) != 2:
+        return None
+    a, b = tokenize(ops[0]), tokenize(ops[1])
+    out = tokenize(parts[1]) if len(parts) == 2 else None
+    if a is None or b is None or (len(parts) == 2 and out is None):
+        return None
+    return a, b, out
+
+
+def einsum_loops(eq, A, B):
+    """independent complex Einstein summation (explicit loops) for explicit, implicit-output and ellipsis equations, with
+    broadcasting of size-1 axes; returns None when the equation / shapes are invalid (torch raises RuntimeError).
+    Implicit output: ellipsis axes first, then the labels occurring exactly once, sorted. Ellipsis axes are aligned from
+    the right; left out of an explicit output they are summed."""
+    p = parse_eq_full(eq)
+    if p is None:
+        return None
+    a, b, out = p
+
+    def cover(toks, nd):
+        n = sum(1 for t in toks if t != ELL)
+        e = toks.count(ELL)
+        if e == 0:
+            return 0 if n == nd else None
+        if e == 1:
+            return nd - n if n <= nd else None
+        return None
+
+    ka, kb = cover(a, A.ndim), cover(b, B.ndim)
+    if ka is None or kb is None:
+        return None
+    K = max(ka, kb)
+    ell = [(ELL, i) for i in range(K)]
+
+    def expand(toks, k):
+        r = []
+        for t in toks:
+            r += ell[K - k:] if t == ELL else [t]
+        return r
+
+    named = [t for t in a + b if t != ELL]
+    a, b = expand(a, ka), expand(b, kb)
+    if out is None:
+        out = ell + sorted(l for l in set(named) if named.count(l) == 1)
+    else:
+        if out.count(ELL) > 1:
+            return None
+        out = expand(out, K)
     size = {}
     for labs, arr in ((a, A), (b, B)):
         loc = {}
@@ -378,14 +456,38 @@ def einsum_loops(eq, A, B):
         acc = 0j
         for sidx in itertools.product(*[range(size[l]) for l in sum_l]):
             env.update(zip(sum_l, sidx))
-            ia = tuple(0 if A.shape[p] == 1 else env[l] for p, l in enumerate(a))
-            ib = tuple(0 if B.shape[p] == 1 else env[l] for p, l in enumerate(b))
+            ia = tuple(0 if A.shape[p_] == 1 else env[l] for p_, l in enumerate(a))
+            ib = tuple(0 if B.shape[p_] == 1 else env[l] for p_, l in enumerate(b))
             acc += A[ia] * B[ib]
         res[oidx] = acc
     return res
 
 
 # ------------------------------------------------------------------ the property oracle
+try:
+    import mpmath as _mp
+except Exception:  # noqa: BLE001
+    _mp = None
+
+
+def logistic_reference(z):
+    """the logistic function 1/(1+e^-z) of a complex ndarray, independent of any double-precision formula the code might
+    use: 40-digit arithmetic (mpmath; the exponent range is unbounded, so neither tail overflows), rounded to complex128.
+    Fallback without mpmath: the two-branch stable form in complex128."""
+    z = np.asarray(z, dtype=np.complex128)
+    if _mp is None:
+        pos = z.real >= 0
+        ez = np.exp(np.where(pos, -z, z))
+        return np.where(pos, 1.0 / (1.0 + ez), ez / (1.0 + ez))
+    out = np.empty(z.shape, dtype=np.complex128)
+    with _mp.workdps(40):
+        for k, v in enumerate(z.ravel()):
+            d = 1 + _mp.exp(-_mp.mpc(float(v.real), float(v.imag)))
+            w = 1 / d if d != 0 else _mp.mpc("nan", "nan")
+            out.reshape(-1)[k] = complex(w)
+    return out
+
+
 def np_broadcast(sa, sb):
     try:
         return list(np.broadcast_shapes(tuple(sa), tuple(sb)))
@@ -475,8 +577,10 @@ def oracle_value(case):
         if len(sx) not in (1, 2):
             return ("err", "ValueError")
         d = decode(x)
-        v = np.sum(d.real * d.real + d.imag * d.imag)
-        return ("r", np.asarray(v if fn == "norm_sqr" else np.sqrt(v)))
+        if fn == "norm":
+            # Euclidean norm of all real and imaginary parts; math.hypot scales internally (np.linalg.norm does not)
+            return ("r", np.asarray(math.hypot(*[float(v) for v in np.ravel(d.real)], *[float(v) for v in np.ravel(d.imag)])))
+        return ("r", np.asarray(np.sum(d.real * d.real + d.imag * d.imag)))
     if fn == "elementwise_division":
         if sx != sy:
             return ("err", "ValueError")
@@ -493,10 +597,7 @@ def oracle_value(case):
         if np_broadcast(sx, sy) is None:
             return ("err", "ValueError")
         z = np.asarray(to_np(x) + 1j * to_np(y))
-        # numerically stable evaluation of the logistic function (independent of the formula used by the code)
-        pos = z.real >= 0
-        ez = np.exp(np.where(pos, -z, z))
-        return ("c", np.where(pos, 1.0 / (1.0 + ez), ez / (1.0 + ez)))
+        return ("c", logistic_reference(z))
     raise ValueError(fn)
 
 
@@ -732,8 +833,14 @@ def _run_impl(case):
 
 
 def eq_to_json(eq):
-    a, b, out = parse_eq(eq)
-    return {"a": [ord(c) for c in a], "b": [ord(c) for c in b], "out": [ord(c) for c in out]}
+    """tokenised equation for the model: labels as character codes, 0 for the ellipsis, out = None for an implicit output;
+    None when the string itself is malformed (stray '.', wrong number of operands: not expressible in tokens)"""
+    p = parse_eq_full(eq)
+    if p is None:
+        return None
+    enc = lambda toks: [0 if t == ELL else ord(t) for t in toks]  # noqa: E731
+    a, b, out = p
+    return {"a": enc(a), "b": enc(b), "out": None if out is None else enc(out)}
 
 
 def run_model(ctx, case):
@@ -864,11 +971,14 @@ def normalised(vals, nrm):
     return out
 
 
-def model_exempt(case):
-    """tolerance-tier inputs for which the Float instantiation of the MODEL is not comparable: `sigC` uses the textbook
-    quotient `e·conj(d)/|d|²`, which overflows for Re z > ~354 where numpy's scaled complex division is still finite
-    (over ℝ, where the theorem lives, both are the same number). Such points are checked against the oracle only."""
-    return case["fn"] == "sigmoid" and case["num"] == "float" and max(case["x"]["data"] + [0.0]) > 350.0
+EXTREME = ("extreme_large", "extreme_small", "extreme_mixed", "overflow_right")
+
+
+def sig_of(case, fn, what):
+    """stable signature; the EXTREME regimes (audit item C15-1 / finding F17) get one signature per function"""
+    if case.get("regime") in EXTREME:
+        return f"{fn}/extreme-range"
+    return f"{fn}/{what}"
 
 
 def one_case(ctx, case):
@@ -907,7 +1017,7 @@ def one_case(ctx, case):
         ctx.count("history=second_call_after_inplace_update")
     if case.get("regime"):
         ctx.count(f"regime[{fn}]={case['regime']}")
-    sig = f"{fn}/{'err' if is_err else 'value'}"
+    sig = sig_of(case, fn, 'err' if is_err else 'value')
     th = THEOREMS.get(fn)
     with np.errstate(all="ignore"):
         want = oracle_value(case)
@@ -939,7 +1049,16 @@ def one_case(ctx, case):
             ctx.point(name, "property", ivals, mvals, case, scale=scale, theorem=th, sig=sg)
 
     # ---------------- correspondence with the Lean model
-    if ctx.driver is not None:
+    untok = fn == "einsum" and eq_to_json(case["eq"]) is None
+    if untok:
+        # the STRING is malformed (stray '.', wrong number of operands): not expressible in the model's tokens; oracle only
+        ctx.count("einsum_untokenisable(oracle-only)")
+    if fn == "einsum":
+        pe = parse_eq_full(case["eq"])
+        form = "malformed-string" if pe is None else (
+            ("ellipsis+" if any(ELL in t for t in (pe[0], pe[1], pe[2] or [])) else "") + ("implicit" if pe[2] is None else "explicit"))
+        ctx.count(f"einsum_form={form}")
+    if ctx.driver is not None and not untok:
         model, mextra = run_model(ctx, case)
         i_struct = {k: impl.get(k) for k in ("error", "shape", "kind")}
         m_struct = {k: model.get(k) for k in ("error", "shape", "kind")}
@@ -964,13 +1083,10 @@ def one_case(ctx, case):
                 ctx.point("scalar_mult.storage.value", "property", flat_of(impl), [float(v) for v in mr["data"]], case, exact=True,
                           theorem="C15_scalar_mult_out_storage, C15_scalar_mult_out_view", sig="scalar_mult/storage/value")
         if not is_err and "error" not in model and impl.get("kind") != "none":
-            if model_exempt(case):
-                ctx.count("model_value_exempt(sigmoid Re z > 350)")
-            else:
-                vpoint(f"{fn}.value", flat_of(impl), flat_of(model), sig)
-                if iextra.get("buffer") is not None and iextra["buffer"].get("shape") == model.get("shape"):
-                    # the caller's buffer (read through the caller's own view) holds the model's value
-                    vpoint(f"{fn}.out_buffer", flat_of(iextra["buffer"]), flat_of(model), f"{fn}/out-buffer")
+            vpoint(f"{fn}.value", flat_of(impl), flat_of(model), sig)
+            if iextra.get("buffer") is not None and iextra["buffer"].get("shape") == model.get("shape"):
+                # the caller's buffer (read through the caller's own view) holds the model's value
+                vpoint(f"{fn}.out_buffer", flat_of(iextra["buffer"]), flat_of(model), f"{fn}/out-buffer")
 
     # ---------------- the property itself on the implementation
     if iextra.get("I_intact") is not None:
@@ -1025,7 +1141,7 @@ def one_case(ctx, case):
                       "impl": str(np.asarray(got).ravel()[:16].tolist()) if got is not None else None, "expected": str(arr.ravel()[:16].tolist())}
         ctx.oracle(label, ok, case, detail=detail, sig=sg, theorem=th)
 
-    against_oracle(impl, f"{fn} == complex arithmetic", f"{fn}/oracle")
+    against_oracle(impl, f"{fn} == complex arithmetic", sig_of(case, fn, "oracle"))
     if iextra.get("buffer") is not None:
         against_oracle(iextra["buffer"], f"{fn}: the out= buffer holds the product", f"{fn}/out-buffer-oracle")
     if "dtype" in impl and fn in ("scalar_mult", "elementwise_mult", "matmul", "inner_prod"):
@@ -1039,6 +1155,58 @@ I_T = T([2], [0.0, 1.0], "f32")
 LIB_EQS = ["ib,ibg->bg", "b,bg->g", "ijb,ijbg->bg", "ab,cd->acbd"]
 MORE_EQS = ["ij,jk->ik", "ab,ab->", "a,b->ba", "ab,b->a", "abc,cd->abd", "ii,i->i", "ab,ba->", ",a->a", "a,->a", ",->",
             "ab,ab->ab", "abc,abd->cd", "ab,c->cab", "aab,b->a", "ij,ij->j", "abcd,cd->ab", "ab,bcd->acd"]
+
+
+IMPLICIT_EQS = ["ij,jk", "ba,ac", "ji,jk", "ii,i", "ij,ij", "i,j", "Ba,aC", "aB,Ba", "a,B", "ab,cd", "a,a", ",", "a,", ",a", "abc,cb",
+                "i j , j k", "ab , bc -> ac", "aab,b", "ib,ibg", "bg,b", "zy,yx", "ab,ba"]
+ELLIPSIS_EQS = ["...j,jk->...k", "...j,jk", "...ij,...jk->...ik", "...ij,...jk", "i...,i...->...", "i...j,j->i...", "ij,jk->...ik", "...,...",
+                "j...,j", "b...a,a", "...j,jk->k", "a...,...a->...", "a...b,b...->a...", "...a,...a->...", "...,...->...", "...ab,...->...ba",
+                "...i,i->i...", "...a,...b", "...,", ",...", "ij,jk->...", "... j , j k -> ... k", "i...i,i->...", "...a,...a", "a...,a...->a",
+                "...b,...bg->...g", "i...b,i...bg->...bg", "...,...->", "a...,b...->ba..."]
+
+
+def general_shapes(rng, eq, bcast=False):
+    """operand shapes for a well-formed general equation: named labels get lengths 1-3, the ellipsis stands for the last k
+    of K <= 2 shared axes (aligned from the right, some of them of length 1 in one operand: broadcasting)"""
+    a, b, _ = parse_eq_full(eq)
+    size = {l: rng.choice([1, 2, 2, 3]) for l in set(a + b) if l != ELL}
+    K = rng.choice([0, 1, 1, 2, 2])
+    E = [rng.choice([1, 2, 3]) for _ in range(K)]
+    full = rng.choice([0, 1])   # this operand gets all K axes (if it has an ellipsis)
+    shapes = []
+    for w, toks in enumerate((a, b)):
+        k = K if w == full else rng.randint(0, K)
+        ed = [1 if rng.random() < 0.2 else d for d in E[K - k:]]
+        sh = []
+        for t in toks:
+            sh += ed if t == ELL else [size[t]]
+        shapes.append(sh)
+    if bcast:
+        cands = [(0, p_) for p_, l in enumerate(a) if l != ELL and ELL not in a and a.count(l) == 1 and l in b and size[l] > 1] + \
+                [(1, p_) for p_, l in enumerate(b) if l != ELL and ELL not in b and b.count(l) == 1 and l in a and size[l] > 1]
+        if cands:
+            w, p_ = rng.choice(cands)
+            shapes[w][p_] = 1
+    return shapes[0], shapes[1]
+
+
+def rand_general_equation(rng):
+    """a random explicit equation turned into an implicit-output and / or ellipsis equation"""
+    eq, _size = rand_equation(rng)
+    a, b, out = parse_eq(eq)
+
+    def ins(sub, p=0.5):
+        if rng.random() < p:
+            k = rng.randint(0, len(sub))
+            return sub[:k] + "..." + sub[k:], True
+        return sub, False
+    a, ea = ins(a)
+    b, eb = ins(b)
+    if rng.random() < 0.45:
+        return f"{a},{b}"
+    if ea or eb or rng.random() < 0.15:
+        out, _ = ins(out, 0.75)
+    return f"{a},{b}->{out}"
 
 
 def rand_equation(rng):
@@ -1165,6 +1333,19 @@ def gen_exact(ctx, n_scale):
         rp, ip = rng.choice([(True, True), (True, True), (True, False), (False, True), (False, False)])
         ctx.count(f"einsum_flags={int(rp)}{int(ip)}")
         yield {"fn": "einsum", "num": num, "eq": eq, "x": rand_cplx(rng, sa, num), "y": rand_cplx(rng, sb, num), "rp": rp, "ip": ip}
+    # einsum: implicit-output and ellipsis equations (audit item C15-2), all four flag combinations
+    for _ in R(420):
+        r = rng.random()
+        if r < 0.3:
+            eq = rng.choice(IMPLICIT_EQS)
+        elif r < 0.65:
+            eq = rng.choice(ELLIPSIS_EQS)
+        else:
+            eq = rand_general_equation(rng)
+        sa, sb = general_shapes(rng, eq, bcast=rng.random() < 0.15)
+        rp, ip = rng.choice([(True, True), (True, True), (True, False), (False, True), (False, False)])
+        ctx.count(f"einsum_flags={int(rp)}{int(ip)}")
+        yield {"fn": "einsum", "num": num, "eq": eq, "x": rand_cplx(rng, sa, num), "y": rand_cplx(rng, sb, num), "rp": rp, "ip": ip}
     # conjugation
     for _ in R(260):
         s = rand_shape(rng)
@@ -1212,9 +1393,13 @@ def gen_tolerance(ctx, n_scale):
         elif fn == "outer_prod":
             yield {"fn": fn, "num": num, "x": rand_cplx(rng, [n], num), "y": rand_cplx(rng, [m], num)}
         elif fn == "einsum":
-            eq = rng.choice(LIB_EQS)
-            size = eq_sizes(eq, rng)
-            sa, sb = shapes_for(eq, size, rng)
+            if rng.random() < 0.5:
+                eq = rng.choice(LIB_EQS)
+                size = eq_sizes(eq, rng)
+                sa, sb = shapes_for(eq, size, rng)
+            else:
+                eq = rng.choice(IMPLICIT_EQS + ELLIPSIS_EQS)
+                sa, sb = general_shapes(rng, eq)
             yield {"fn": fn, "num": num, "eq": eq, "x": rand_cplx(rng, sa, num), "y": rand_cplx(rng, sb, num), "rp": True, "ip": rng.random() < 0.6}
         elif fn == "conjugate":
             yield {"fn": fn, "num": num, "x": rand_cplx(rng, rand_shape(rng), num)}
@@ -1248,14 +1433,21 @@ def rand_cplx_mag(rng, tshape, lo, hi, zeros=0.0, mixed=True):
     return T([2] + list(tshape), re + im)
 
 
-SIG_REGIMES = ["left_tail", "left_tail", "right_tail", "far_right", "underflow", "mixed", "real_axis"]
+SIG_REGIMES = ["left_tail", "left_tail", "right_tail", "far_right", "underflow", "mixed", "real_axis", "overflow_right", "overflow_right"]
+EXP_MAX = 709.782712893384  # log(DBL_MAX): e^x overflows beyond
 
 
 def rand_sigmoid_args(rng, s, t, regime):
-    """real and imaginary part tensors for the sigmoid in a given regime of Re z. The formula of the code,
-    e^z/(1+e^z), is finite for Re z < 709.78 (beyond: inf/inf = nan while the true value is 1 — excluded, see notes)."""
+    """real and imaginary part tensors for the sigmoid in a given regime of Re z. `overflow_right`: Re z in (709.78, 1000],
+    where e^z overflows although the sigmoid is 1 to rounding (the formula e^z/(1+e^z) gives inf/inf = nan there: F17)."""
     def re_val():
-        r = regime if regime != "mixed" else rng.choice(["left_tail", "right_tail", "moderate", "far_right", "underflow", "zero"])
+        r = regime if regime not in ("mixed", "overflow_right") else rng.choice(
+            ["left_tail", "right_tail", "moderate", "far_right", "underflow", "zero"] if regime == "mixed" else
+            ["overflow_right", "overflow_right", "overflow_right", "left_tail", "far_right", "moderate", "edge"])
+        if r == "overflow_right":
+            return rng.uniform(EXP_MAX + 1e-3, 1000.0)
+        if r == "edge":
+            return EXP_MAX + rng.choice([1e-6, 0.01, 0.5, 1.0, 35.0, 36.1, 40.0])
         if r == "left_tail":
             return -rng.uniform(30.0, 700.0)
         if r == "right_tail":
@@ -1281,13 +1473,14 @@ def rand_sigmoid_args(rng, s, t, regime):
         xs = [rng.choice([-1.0, 1.0]) * rng.choice([rng.uniform(0, 5), rng.uniform(30, 350), rng.uniform(350, 700)]) for _ in range(numel(s))]
     else:
         xs = [re_val() for _ in range(numel(s))]
+    if regime == "overflow_right" and numel(s) > 0 and max(xs) <= EXP_MAX:
+        xs[rng.randrange(len(xs))] = rng.uniform(EXP_MAX + 1e-3, 1000.0)   # at least one entry beyond the overflow point
     return T(s, xs), T(t, [im_val() for _ in range(numel(t))])
 
 
 def gen_ranges(ctx, n_scale):
     """RANGE dimension of the tolerance tier: saturation / tails of the sigmoid, very large / small / mixed moduli and exact
-    zeros for division, inverse, modulus, norms and products. All intermediates of the clean code stay finite for moduli in
-    1e-140..1e140 (|y|² and x·conj(y) are formed explicitly); beyond that the code itself over/underflows (excluded)."""
+    zeros for division, inverse, modulus, norms and products (moduli 1e-140..1e140; the range beyond is `gen_extreme`)."""
     rng = ctx.rng
     num = "float"
     R = lambda k: range(max(1, int(k * n_scale)))  # noqa: E731
@@ -1331,6 +1524,78 @@ def gen_ranges(ctx, n_scale):
             c.update(x=mk([rng.randint(1, 3)]), y=mk([rng.randint(1, 3)]))
         else:
             c.update(x=mk([rng.randint(1, 3), rng.randint(1, 3)]), y=mk([rng.randint(1, 2), rng.randint(1, 3)]))
+        yield c
+
+
+def cplx_with_exps(rng, tshape, exps):
+    """complex tensor whose entry k has modulus 10**exps[k]: random phase, sometimes purely real / imaginary"""
+    re, im = [], []
+    for e in exps:
+        m = 10.0 ** e
+        u = rng.random()
+        if u < 0.12:
+            a, b = m * rng.choice([-1.0, 1.0]), 0.0
+        elif u < 0.24:
+            a, b = 0.0, m * rng.choice([-1.0, 1.0])
+        elif u < 0.32:
+            # one component negligible against the other (but non-zero)
+            a, b = m * rng.choice([-1.0, 1.0]), m * 10.0 ** -rng.uniform(20.0, 200.0) * rng.choice([-1.0, 1.0])
+            if rng.random() < 0.5:
+                a, b = b, a
+        else:
+            phi = rng.uniform(0.0, 2.0 * math.pi)
+            a, b = m * math.cos(phi), m * math.sin(phi)
+        re.append(a)
+        im.append(b)
+    return T([2] + list(tshape), re + im)
+
+
+EXT_LO, EXT_HI, EXT_SMALL = 155.0, 300.0, 280.0   # results below 1e-280 are too close to TINY for a relative comparison
+
+
+def ext_exponent(rng, regime):
+    if regime == "extreme_large" or (regime == "extreme_mixed" and rng.random() < 0.5):
+        return rng.uniform(EXT_LO, EXT_HI)
+    return -rng.uniform(EXT_LO, EXT_SMALL)
+
+
+def gen_extreme(ctx, n_scale):
+    """EXTREME regime (audit item C15-1): moduli 1e+-(155..300); every operand finite, every true result finite and a
+    normal number. |z|^2 formed explicitly overflows / underflows here; hypot and scaled division do not."""
+    rng = ctx.rng
+    num = "float"
+    R = lambda k: range(max(1, int(k * n_scale)))  # noqa: E731
+    for _ in R(260):
+        fn = rng.choice(["absolute_value", "absolute_value", "inverse", "inverse", "elementwise_division", "elementwise_division",
+                         "norm", "norm", "scalar_divide"])
+        regime = rng.choice(["extreme_large", "extreme_small", "extreme_mixed"])
+        s = rand_shape(rng)
+        n = numel(s)
+        c = {"fn": fn, "num": num, "regime": regime}
+        if fn in ("absolute_value", "inverse"):
+            c.update(x=cplx_with_exps(rng, s, [ext_exponent(rng, regime) for _ in range(n)]))
+        elif fn == "norm":
+            s = rng.choice([[], [rng.randint(1, 4)]])
+            # mixed: one extreme entry dominates, the others may be of any size (they underflow against it harmlessly)
+            ex = [ext_exponent(rng, regime) for _ in range(numel(s))]
+            if regime == "extreme_mixed" and len(ex) > 1:
+                big = rng.uniform(EXT_LO, EXT_HI)
+                ex = [big if k == 0 else rng.uniform(-EXT_HI, big) for k in range(len(ex))]
+                rng.shuffle(ex)
+            c.update(x=cplx_with_exps(rng, s, ex))
+        elif fn == "elementwise_division":
+            ey = [ext_exponent(rng, regime) for _ in range(n)]
+            # the quotient must be representable (and normal): |e_x - e_y| <= 280, |e_x| <= 300
+            ex = [min(EXT_HI, max(-EXT_HI, e + rng.uniform(-EXT_SMALL, EXT_SMALL))) for e in ey]
+            ex = [e if abs(e - f) <= EXT_SMALL else f + math.copysign(EXT_SMALL, e - f) for e, f in zip(ex, ey)]
+            c.update(x=cplx_with_exps(rng, s, ex), y=cplx_with_exps(rng, s, ey))
+        else:
+            # scalar_divide with broadcasting: one exponent per tensor (+-1), quotient representable
+            t = bcast_partner(rng, s)
+            ey = ext_exponent(rng, regime)
+            ex = min(EXT_HI - 2, max(-EXT_HI + 2, ey + rng.uniform(-EXT_SMALL + 5, EXT_SMALL - 5)))
+            c.update(x=cplx_with_exps(rng, s, [ex + rng.uniform(-1, 1) for _ in range(n)]),
+                     y=cplx_with_exps(rng, t, [ey + rng.uniform(-1, 1) for _ in range(numel(t))]))
         yield c
 
 
@@ -1391,7 +1656,9 @@ def decorate(ctx, case):
             continue
         if alias and alias["with"] == role and alias["how"] == "window":
             continue
-        l = rand_layout(rng, t["shape"], allow_expand=not (alias and alias["with"] == role))
+        # (an expanded layout copies entries along the expanded axes: not for the EXTREME cases, whose operands are paired
+        # entry by entry so that every quotient is representable)
+        l = rand_layout(rng, t["shape"], allow_expand=not (alias and alias["with"] == role) and case.get("regime") not in EXTREME)
         if l:
             if case.get("same") and role == "x":
                 pass
@@ -1548,6 +1815,19 @@ def gen_malformed(ctx, n_scale):
             eq, sa, sb = rng.choice([("aa,a->a", [2, 3], [2]), ("aa,ab->b", [1, 3], [3, 2]), ("a,bb->a", [2], [2, 3])])
         yield {"fn": "einsum", "num": num, "eq": eq, "x": rand_cplx(rng, sa, num), "y": rand_cplx(rng, sb, num),
                "rp": rng.random() < 0.8, "ip": rng.random() < 0.8}
+    for _ in R(90):
+        # einsum, implicit-output / ellipsis forms: two ellipses, stray dots, more subscripts than axes, ellipsis axes that
+        # do not broadcast, ellipsis twice in the output, wrong number of operands in the string, non-letters
+        eq, sa, sb = rng.choice([
+            ("...i...,i->i", [2, 2], [2]), ("i...j...,j", [2, 2, 2], [2]), ("..i,i->i", [2, 2], [2]), ("i.,i->i", [2], [2]),
+            (".i,i", [2], [2]), ("...ij,j->i", [2], [2]), ("...ij,j", [2], [2]), ("ab...,c", [2], [2]),
+            ("...i,...i->...i", [2, 3], [3, 3]), ("...,...", [2], [3]), ("...a,...a", [2, 3, 2], [3, 2, 2]),
+            ("...i,i->......", [2, 2], [2]), ("ij,jk", [2, 2, 2], [2, 2]), ("ij,jk", [2], [2, 2]), ("i,i,i", [2], [2]),
+            ("ij", [2, 2], [2, 2]), ("i1,1", [2, 3], [3]), ("ij,jk->ik->", [2, 2], [2, 2]), ("ii,i", [2, 3], [2]),
+            ("...ii,i", [2, 2, 3], [2]), ("a...,a->...b", [2, 2], [2]), ("a...,a...->aa", [2, 2], [2, 2]), ("i,j->...ij...", [2], [2]),
+        ])
+        yield {"fn": "einsum", "num": num, "eq": eq, "x": rand_cplx(rng, sa, num), "y": rand_cplx(rng, sb, num),
+               "rp": rng.random() < 0.85, "ip": rng.random() < 0.85}
     for _ in R(60):
         s = rand_shape(rng, rank=rng.randint(1, 3))
         t = clash(s) if rng.random() < 0.6 else s + [1]
@@ -1562,7 +1842,7 @@ def gen_malformed(ctx, n_scale):
 
 
 def gen_all(ctx, n_scale):
-    for gen in (gen_exact, gen_alias, gen_tolerance, gen_ranges, gen_malformed):
+    for gen in (gen_exact, gen_alias, gen_tolerance, gen_ranges, gen_extreme, gen_malformed):
         for case in gen(ctx, n_scale):
             yield decorate(ctx, case)
 
